@@ -142,23 +142,64 @@ def Env.hasMatch (env : Env) (u : Name) (q : Query) : Prop :=
 instance (env : Env) (u : Name) (q : Query) : Decidable (env.hasMatch u q) := by
   unfold Env.hasMatch; infer_instance
 
-/-! ### histories: tree operations interleaved with search carriers -/
+/-! ### histories: tree operations interleaved with search carriers, with adds in progress
+
+`_add_child` (distributed.py:304-327) is the one handler on the search path's state that suspends in the middle:
+
+    self.children.append(peer)                                   -- 308   state change
+    root, level = self._get_advertised_branch_values()           -- 310   (raises without a session: abandoned here)
+    await asyncio.gather(send level, send root)                  -- 320   SUSPENSION (socket writes, drain)
+    logger.debug(...)                                            -- 324   nothing else
+
+While it waits for the joining peer's socket (2–3 loop iterations on an idle socket, up to the 10 s write time-out on a
+congested one) other handlers run — in particular search carriers. The small-step history splits the add at that point:
+`addBegin n` is `_on_peer_connection_initialized(requested=False)` up to the suspension (or to its end when the peer
+is not admitted or there is no session); everything the handler does to the state, and both writes, lie BEFORE the
+suspension, so its effect is that of the atomic `Op.initialized n false`. `addEnd c` is the resumption after the
+gather (normally, or with the write error of a socket that failed or timed out): it only logs. `adding` lists the
+adds in progress whose connection is still registered (`distributed_peers`); a connection that is closed meanwhile
+(`Op.closed`, also the library's own disconnect on a write time-out) drops out.
+-/
 
 inductive SOp
   | tree (op : Op)
   | search (r : Req)
+  /-- a peer connects as a would-be child; `_add_child` runs up to its suspension -/
+  | addBegin (n : Name)
+  /-- `_add_child` of connection `c` resumes after the sends (logging only) -/
+  | addEnd (c : ConnId)
 deriving Repr
 
-/-- the log holds, per received carrier, everything that was written for it -/
-def stepS (env : Env) (st : DState × List (Req × List Out)) : SOp → DState × List (Req × List Out)
-  | .tree op => (step st.1 op, st.2)
-  | .search r => (st.1, st.2 ++ [(r, handle env st.1 r)])
+structure SState where
+  d : DState
+  /-- connections whose `_add_child` is suspended in its sends, still registered -/
+  adding : List ConnId
+  /-- per received carrier, everything that was written for it -/
+  log : List (Req × List Out)
 
-def runS (env : Env) (h : List SOp) : DState × List (Req × List Out) := h.foldl (stepS env) (init, [])
+def SState.init : SState := ⟨Dist.init, [], []⟩
+
+/-- adds in progress after the tree state moved to `d'`: those whose connection is still registered -/
+def stillAdding (adding : List ConnId) (d' : DState) : List ConnId := adding.filter (fun c => decide (c ∈ d'.live))
+
+def stepS (env : Env) (st : SState) : SOp → SState
+  | .tree op => let d' := step st.d op; { st with d := d', adding := stillAdding st.adding d' }
+  | .search r => { st with log := st.log ++ [(r, handle env st.d r)] }
+  | .addBegin n =>
+    let c := st.d.nextConn
+    let d' := step st.d (.initialized n false)
+    { st with d := d',
+              adding := stillAdding st.adding d' ++
+                (if c ∈ d'.children ∧ d'.session.isSome = true then [c] else []) }
+  | .addEnd c => { st with adding := st.adding.erase c }
+
+def runS (env : Env) (h : List SOp) : SState := h.foldl (stepS env) SState.init
 
 def treeOps : List SOp → List Op
   | [] => []
   | .tree op :: h => op :: treeOps h
   | .search _ :: h => treeOps h
+  | .addBegin n :: h => .initialized n false :: treeOps h
+  | .addEnd _ :: h => treeOps h
 
 end AioslskVerif.DistSearch
